@@ -10,11 +10,14 @@ import (
 	"fmt"
 	"os"
 	"runtime/debug"
+	"runtime/pprof"
 	"sync"
 	"time"
 
 	"verif/core"
 	"verif/evmkit"
+
+	"github.com/dappledger/AnnChain/chain/app/evm"
 )
 
 func evmConfigs(quick bool) []evmCfg {
@@ -36,8 +39,14 @@ func evmConfigs(quick bool) []evmCfg {
 	for n := 8; n >= 0; n-- {
 		b.Prefill = append(b.Prefill, fmt.Sprintf("R:G:%d:a", n))
 	}
+	allC := []string{"C:E", "C:X", "C:A1", "C:A2", "C:B1", "C:A1B1", "C:ALL"}
+	a.Commits, b.Commits = allC, allC
 	if quick {
+		// shrink payload variants (second payload only for nonces 0 and 1) and the
+		// commit selections before shrinking the depth
 		a.Payloads = low
+		a.Commits = []string{"C:E", "C:X", "C:A1", "C:A2", "C:ALL"}
+		b.Commits = a.Commits
 	}
 	return []evmCfg{a, b}
 }
@@ -47,10 +56,26 @@ type evmPoolOfWorkers struct {
 	ws map[int]*evmWorker
 }
 
+var stopProfile = func() {}
+
 func main() {
 	run := core.Start("C19", "model_checking", "XSTATE")
-	debug.SetMemoryLimit(6 << 30)
+	debug.SetMemoryLimit(3 << 30)
 	evmkit.Silence()
+	// one signature-checking goroutine per block instead of NumCPU spinning ones:
+	// 16 pools are exercised in parallel and block execution is not the subject here
+	evm.SetVerifValidateRoutineCount(1)
+	if p := os.Getenv("VERIF_C19_CPUPROFILE"); p != "" {
+		f, _ := os.Create(p)
+		pprof.StartCPUProfile(f)
+		defer pprof.StopCPUProfile()
+		stopProfile = func() {
+			pprof.StopCPUProfile()
+			g, _ := os.Create(p + ".allocs")
+			pprof.Lookup("allocs").WriteTo(g, 0)
+			g.Close()
+		}
+	}
 	rep := &reporter{run: run, classes: core.NewCounter(), obsSet: core.NewCounter(), finds: core.NewCounter(), samples: core.NewSampler(8, run.Seed)}
 	os.RemoveAll(run.WorkDir())
 
@@ -114,21 +139,32 @@ func main() {
 	exhaustive := true
 
 	// ---- gemmill mempool (cheap) ----
+	only := os.Getenv("VERIF_C19_ONLY") // development aid: restrict to one system (evidence is then partial)
 	for _, c := range mpCfgs {
 		c := c
-		sys := sysDef{Pool: "gemmill-mempool", Cfg: c.Name, Alphabet: mpAlphabet(c), Depth: run.Pick(6, 8), Workers: 16,
+		if only != "" && only != "mp" {
+			continue
+		}
+		sys := sysDef{Pool: "gemmill-mempool", Cfg: c.Name, Alphabet: mpAlphabet(c), Depth: run.Pick(5, 7), Workers: 16, MergeObs: true, MergeAlts: 1,
+			Deadline: start.Add(time.Duration(float64(budget) * map[string]float64{"A": 0.12, "B": 0.2}[c.Name])),
 			Exec: func(_ int, h []string, mode string) *execResult { return runMp(c, h, mode) }}
 		s := explore(sys, rep)
 		stats["gemmill-mempool/"+c.Name] = s
+		if s.Capped {
+			exhaustive = false
+		}
 		bounds["gemmill-mempool/"+c.Name] = map[string]interface{}{"depth": sys.Depth, "alphabet": sys.Alphabet}
 	}
 
 	// ---- ethTxPool ----
 	depths := map[string]int{"A": run.Pick(5, 7), "B": run.Pick(4, 5)}
-	share := map[string]float64{"A": 0.62, "B": 1.0}
+	share := map[string]float64{"A": 0.66, "B": 0.93}
 	for _, c := range cfgs {
+		if only != "" && only != "evm"+c.Name {
+			continue
+		}
 		ex, closeAll := evmExecFor(c)
-		sys := sysDef{Pool: "ethTxPool", Cfg: c.Name, Alphabet: evmAlphabet(c), Depth: depths[c.Name], Workers: 16, Exec: ex,
+		sys := sysDef{Pool: "ethTxPool", Cfg: c.Name, Alphabet: evmAlphabet(c), Depth: depths[c.Name], Workers: 16, Exec: ex, MergeObs: true, MergeAlts: run.Pick(0, 1),
 			Deadline: start.Add(time.Duration(float64(budget) * share[c.Name]))}
 		s := explore(sys, rep)
 		closeAll()
@@ -141,7 +177,7 @@ func main() {
 
 	// ---- growth probe: k distinct txs for one (account, nonce) ----
 	growth := map[string]interface{}{}
-	{
+	if only == "" || only == "growth" {
 		c := cfgs[0]
 		ex, closeAll := evmExecFor(c)
 		for _, slot := range []string{"A:0", "A:1"} {
@@ -174,9 +210,10 @@ func main() {
 		reaps += s.Reaps
 		blocks += s.Blocks
 		statOut[k] = map[string]interface{}{"states": s.States, "transitions": s.Transitions, "merges": s.Merges, "merge_checks": s.MergeChecks,
-			"drains": s.Drains, "executions": s.Executions, "new_states_per_depth": s.PerDepth, "max_depth_completed": s.DepthDone, "capped_by_time": s.Capped, "wall_s": int(s.Wall*10) / 10.0}
+			"drains": s.Drains, "executions": s.Executions, "new_states_per_depth": s.PerDepth, "max_depth_completed": s.DepthDone, "capped_by_time": s.Capped, "transitions_in_unfinished_level": s.PartialTransitions, "wall_s": int(s.Wall*10) / 10.0}
 	}
 	os.RemoveAll(run.WorkDir())
+	stopProfile()
 	cov := core.Coverage{
 		"states":                        states,
 		"transitions":                   trans,
